@@ -6,7 +6,7 @@
 From Coq Require Import List ZArith NArith Bool Arith.
 Import ListNotations.
 From Stam Require Import Base.Sx Model.Offset Model.Store Model.TempId Model.DataValue
-     Spec.StoreSpec Spec.DataSpec Run.StoreRun.
+     Model.StoreExt Spec.StoreSpec Spec.DataSpec Run.StoreRun.
 
 Fixpoint dop_of_sx (x : sx) : dop :=
   match x with
@@ -36,13 +36,18 @@ Definition probe_set (ds : dset) (model : bool) (probes values : list sx) : sx :
                let key := oref_of_sx (sx_nth 0 p) in
                let o := dop_of_sx (sx_nth 1 p) in
                let r := if model then m_find_data ds key o else s_find_data ds key o in
-               L [of_nats r; of_bool (match r with [] => false | _ => true end); of_nats r; of_nats r; of_bool (match r with [] => false | _ => true end)]) probes);
+               L [of_nats r; of_bool (match r with [] => false | _ => true end); of_nats r; of_nats r; of_bool (match r with [] => false | _ => true end); of_nats r]) probes);
      L (map (fun v => L (map (fun k => of_opt (if model then m_data_by_value ds (ById k) (value_of_sx v)
                                                 else s_data_by_value ds (ById k) (value_of_sx v)))
                              (seq 0 3))) values)].
 
 Definition run_C10 (x : sx) : sx :=
-  let s := run (map op_of_sx (sx_list (sx_nth 0 x))) in
+  (* operation 13 = add_dataset from a builder with data items (Model/StoreExt.add_set_with) *)
+  let s := fold_left (fun s o =>
+                        if Z.eqb (sx_Z (sx_nth 0 o)) 13
+                        then fst (add_set_with s (sx_nat (sx_nth 1 o)) (map dbuild_of_sx (sx_list (sx_nth 2 o))))
+                        else fst (step s (op_of_sx o)))
+                     (sx_list (sx_nth 0 x)) empty_store in
   let probes := sx_list (sx_nth 1 x) in
   let values := sx_list (sx_nth 2 x) in
   let once := (flat_map (fun d =>
